@@ -392,8 +392,142 @@ func runC05(c *Ctx) {
 		}
 		c.DistinctCase(fmt.Sprint("relist-race", i))
 	}
+	// a burst followed at once by the root's Close(): whatever the controller
+	// published before it stopped reaches EVERY subscriber at every depth before
+	// their Events() channels close (publishers drain their parent's backlog
+	// before they shut down) — subscribers created together at a barrier end
+	// with the same sequence
+	ntail := 10
+	if !c.Quick() {
+		ntail = 150
+	}
+	for i := 0; i < ntail; i++ {
+		var problems []string
+		what := "a burst of 60 events, then Close() of the root at once"
+		c.Now(what)
+		dl := sched.Bubble(c.T, func() {
+			srv := fakeapi.New()
+			srv.Set(1, 1, labSets[1], 1)
+			ct := newCtlWith(srv, c.Seed*1000+500+int64(i), (i%4)/3, 1000000*time.Second, nil)
+			t := newTree(ct, nil)
+			ct.pert.Barrier()
+			a, _ := t.add(t.root, nSub, nil)
+			cl, _ := t.add(t.root, nClone, nil)
+			var b, cc *node
+			if cl != nil {
+				b, _ = t.add(cl, nSub, nil)
+				if cl2, _ := t.add(cl, nClone, nil); cl2 != nil {
+					cc, _ = t.add(cl2, nSub, nil)
+				}
+			}
+			ct.pert.Barrier()
+			for k := 0; k < 60; k++ {
+				srv.Set(1+k%2, 1+k%3, labSets[k%3], 1)
+			}
+			if i%2 == 0 {
+				time.Sleep(time.Duration(i) * time.Microsecond)
+			}
+			ct.c.Close()
+			ct.pert.SetLevel(0)
+			sched.Settle()
+			var seqs [][][2]int
+			var names []string
+			for _, nd := range []*node{a, b, cc} {
+				if nd == nil {
+					continue
+				}
+				<-nd.readerEnd
+				seqs = append(seqs, recvIDs(nd.received()))
+				names = append(names, nd.name())
+			}
+			for j := 1; j < len(seqs); j++ {
+				if fmt.Sprint(seqs[j]) != fmt.Sprint(seqs[0]) {
+					problems = append(problems, fmt.Sprintf("%s received %d events and %s %d before their Events() channels closed: part of what was published before the shutdown never reached one of them", names[0], len(seqs[0]), names[j], len(seqs[j])))
+				}
+			}
+			c.Stat("tail_events_delivered", len(seqs[0]))
+		})
+		runs++
+		c.Rep.Evaluations++
+		replay := map[string]interface{}{"scenario": what, "attempt": i}
+		if dl != "" {
+			replay["deadlock"] = dl
+			c.Violation("", "hang (bubble deadlock): "+what, replay)
+		}
+		for _, p := range problems {
+			c.Violation("", p, replay)
+		}
+		c.DistinctCase(fmt.Sprint("tail", i))
+	}
+	// the same on a hand-driven source (verif export), where "published before
+	// the shutdown" is exact: 60 events are handed to the source subscription,
+	// then the source is stopped at once; every subscriber at depth 0, 1 and 2
+	// receives all 60 before its Events() channel closes
+	for i := 0; i < ntail; i++ {
+		var problems []string
+		what := "60 events handed to a hand-driven source, then the source stopped at once"
+		c.Now(what)
+		dl := sched.Bubble(c.T, func() {
+			ctx, cancel := context.WithCancel(context.Background())
+			defer cancel()
+			pert := sched.NewPerturb(c.Seed+int64(i), i%3)
+			src := kcache.NewVerifSource(ctx, pert.Log(), (&Filt{Tag: FNull}).Go())
+			src.MakeReady()
+			var subs []kcache.Subscription
+			add := func(p kcache.Publisher) {
+				if s, err := p.Subscribe(); err == nil {
+					subs = append(subs, s)
+				}
+			}
+			add(src)
+			if cl, err := src.Clone(); err == nil {
+				add(cl)
+				if cl2, err := cl.Clone(); err == nil {
+					add(cl2)
+				}
+			}
+			counts := make([]int, len(subs))
+			ends := make([]chan struct{}, len(subs))
+			for j, sub := range subs {
+				ends[j] = make(chan struct{})
+				go func(j int, sub kcache.Subscription) {
+					defer close(ends[j])
+					for range sub.Events() {
+						counts[j]++
+					}
+				}(j, sub)
+			}
+			pert.Barrier()
+			for k := 0; k < 60; k++ {
+				o := &Obj{ID: 100 + k, Kind: KPod, NS: 1, NM: 1 + k%3, RV: fmt.Sprint(k + 1), Spec: SPod}
+				src.Send(kcache.NewEvent(etyTo(1), o.Go()))
+			}
+			src.Stop()
+			pert.SetLevel(0)
+			sched.Settle()
+			for j := range subs {
+				<-ends[j]
+				if counts[j] != 60 {
+					problems = append(problems, fmt.Sprintf("the subscriber at depth %d received %d of the 60 events published before the source stopped", j, counts[j]))
+				}
+			}
+			cancel()
+			sched.Settle()
+		})
+		runs++
+		c.Rep.Evaluations++
+		replay := map[string]interface{}{"scenario": what, "attempt": i}
+		if dl != "" {
+			replay["deadlock"] = dl
+			c.Violation("", "hang (bubble deadlock): "+what, replay)
+		}
+		for _, p := range problems {
+			c.Violation("", p, replay)
+		}
+		c.DistinctCase(fmt.Sprint("tail-src", i))
+	}
 	bufferScenarios(c, 3, 60)
-	c.Rep.Rule = "trees of Subscribe/Clone to depth 3 built through the public API on a real controller fed by the fake API server's watch (virtual time), subscriptions created at barriers and racing with the stream, <= EventBufsiz/4 events in flight, 4 levels of logger-driven perturbation. Oracles: every subscriber's sequence is a suffix of the reference subscriber's (exact start index when created at a barrier), no event before Ready, Get after an event never returns an older version; sequences of barrier-created subscribers vs the extracted model (skipn). Plus: 130 events with never-reading siblings holding full buffers (the consumers that keep up receive all 130); and periodic relists that find 399 differences while the restarted watch at once delivers newer versions of the last of those objects (no subscriber sees an object go back to an older version). Non-trivial = scenario with >= 3 subscribers checked."
+	c.Rep.Rule = "trees of Subscribe/Clone to depth 3 built through the public API on a real controller fed by the fake API server's watch (virtual time), subscriptions created at barriers and racing with the stream, <= EventBufsiz/4 events in flight, 4 levels of logger-driven perturbation. Oracles: every subscriber's sequence is a suffix of the reference subscriber's (exact start index when created at a barrier), no event before Ready, Get after an event never returns an older version; sequences of barrier-created subscribers vs the extracted model (skipn). Plus: 130 events with never-reading siblings holding full buffers (the consumers that keep up receive all 130); and periodic relists that find 399 differences while the restarted watch at once delivers newer versions of the last of those objects (no subscriber sees an object go back to an older version); and a burst followed at once by the root's Close() (subscribers at depth 0, 1 and 2 created together end with the same sequence: publishers drain their backlog before shutting down; on a hand-driven source every subscriber receives exactly the 60 events handed over before the stop). Non-trivial = scenario with >= 3 subscribers checked."
 	c.Rep.Stats["runs"] = runs
 }
 
